@@ -324,6 +324,11 @@ func (q *TaskQueue) addAfter(id string, newTask task.Task) {
 		}
 	}
 
+	// no task with such id: leave the queue as it is, do not add an empty slot
+	if !idFound {
+		return
+	}
+
 	q.items = newItems
 }
 
@@ -356,6 +361,11 @@ func (q *TaskQueue) addBefore(id string, newTask task.Task) {
 			// when id is found, copy other taskы to i+1 position
 			newItems[i+1] = t
 		}
+	}
+
+	// no task with such id: leave the queue as it is, do not add an empty slot
+	if !idFound {
+		return
 	}
 
 	q.items = newItems
